@@ -42,8 +42,8 @@ def snap_f(o):
 def run(res):
     rng = rng_for('C07')
     quick = res.tier == 'quick'
-    nhist = 12 if quick else 60
-    length = 250 if quick else 1500
+    nhist = 12 if quick else 30
+    length = 250 if quick else 800
     lines, impl_first, owners = [], [], []
     violations = []
     calls = 0
